@@ -19,7 +19,7 @@ Definition sk_pkg_validate_compiled : string := "return call ValidateCompiled".
 Definition sk_pkg_validate_with_configuration : string := "return call ValidateWithConfiguration".
 Definition sk_pkg_validate_compiled_with_configuration : string := "return call ValidateCompiledWithConfiguration".
 Definition sk_recover_as_error : string := "call recover; if r != nil { if isError {  } else { call Errorf } }".
-Definition sk_close_event_chan : string := "if eventChan != nil { call close }".
+Definition sk_close_event_chan : string := "if eventChan != nil { call LoadOrStore; if !alreadyClosed { call close } }".
 Definition sk_dispatch_event : string := "if eventChan != nil {  }".
 Definition sk_milestones : string := "call make; range *eventChan { switch { case e.ProfileParsingStart,e.InputDataParsingStart,e.InputDataNormalizationStart,e.RegoGenerationStart,e.RegoCompilationStart,e.OpaValidationStart,e.BuildReportStart:  | case e.ProfileParsingDone:  | case e.InputDataParsingDone:  | case e.InputDataNormalizationDone:  | case e.RegoGenerationDone:  | case e.RegoCompilationDone:  | case e.OpaValidationDone:  | case e.BuildReportDone:  } }; call close".
 Definition sk_index : string := "call make; call make; if isMap {  }; range nodes { typeswitch { case string: if !ok { call make }; call append | case []any: range classes.([]any) { if !ok { call make }; call append } } }; call createLocationIndex; call make; range classIndex[""http://a.ml/vocabularies/document-source-maps#SourceMap""] { call handleSingleOrMultipleNodes; call addLexicalEntryFrom }; return".
